@@ -43,7 +43,7 @@ def shards(tier: str) -> int:
 
 @st.composite
 def cases(draw: Any) -> dict[str, Any]:
-    fam = draw(st.sampled_from(["recs", "expr", "crep", "crep_nested"]))
+    fam = draw(st.sampled_from(["recs", "expr", "crep", "crep_nested", "crep_trailing"]))
     settings = {
         "population_size": draw(st.sampled_from([6, 12, 25])),
         "max_nodes": draw(st.sampled_from([20, 50])),
@@ -74,6 +74,11 @@ def crep_spec(fam: str) -> dict[str, Any]:
     if fam == "crep":
         rules = [["start", ["seq", [["nt", "len"], ["lit", ":"], ["crep", ["nt", "item"], "int(<len>)"]]]],
                  ["len", ["alt", [["lit", c] for c in "01234"]]], ["item", item]]
+    elif fam == "crep_trailing":
+        # the symbol of the bound occurs again AFTER the repetition (only the preceding one counts)
+        rules = [["start", ["rep", ["nt", "rec"], 1, 2]],
+                 ["rec", ["seq", [["nt", "len"], ["lit", ":"], ["crep", ["nt", "item"], "int(<len>)"], ["lit", ";"], ["nt", "len"], ["lit", "."]]]],
+                 ["len", ["alt", [["lit", c] for c in "01234"]]], ["item", item]]
     else:
         rules = [["start", ["rep", ["nt", "rec"], 1, 3]],
                  ["rec", ["seq", [["nt", "len"], ["crep", ["seq", [["nt", "item"], ["opt", ["lit", ","]]]], "int(<len>)"], ["lit", ";"]]]],
@@ -86,7 +91,7 @@ def crep_ok(fam: str, root: R.Node) -> list[str]:
     out = []
     holders = [root] if fam == "crep" else [c for c in root.children if c.sym == "<rec>"]
     for h in holders:
-        lens = [c for c in h.children if c.sym == "<len>"]
+        lens = [c for c in h.children if c.sym == "<len>"][:1]  # the <len> in front of the repetition
         items = [c for c in h.children if c.sym == "<item>"]
         if len(lens) != 1 or len(items) != int(lens[0].text):
             out.append(f"computed repetition: <len>={lens[0].text if lens else None} but {len(items)} <item> iterations in {h.text!r}")
